@@ -43,7 +43,7 @@ ASSUMPTIONS = [
     'the second element of dispatch()\'s return value (the tuple of error codes) is not judged here, also not for falsy error objects',
 ]
 SHARDS = {'quick': 8, 'thorough': 16}
-TIMEOUT = {'quick': 400, 'thorough': 2400}
+TIMEOUT = {'quick': 900, 'thorough': 3600}
 ANCHORS = [
     ('pjrpc/server/dispatcher.py', 'Dispatcher.__init__'), ('pjrpc/server/dispatcher.py', 'AsyncDispatcher.__init__'),
     ('pjrpc/server/dispatcher.py', 'Dispatcher._handle_request'), ('pjrpc/server/dispatcher.py', 'AsyncDispatcher._handle_request'),
